@@ -3,6 +3,9 @@
 //! `with_reconnection_events` [-> `with_error_handler`] as composed by `init_market_stream`, and `forward_to`) plus
 //! `barter_integration::stream::merge::merge` on scripts of connection outcomes under tokio's PAUSED clock, and compares
 //! every delivered event together with the virtual time of its delivery against a reference model.
+//! Section `market_stream` (end of file) drives the REAL `init_market_stream::<ScriptedExchange, _, _>` itself on a fake
+//! exchange whose `MarketStream::init` is scripted, so that the composition INSIDE that function (termination predicate,
+//! policy, subscriptions handed to every (re-)initialisation, origin of the notices) is exercised too.
 use crate::{rng::Rng, report};
 use barter_data::streams::{
     consumer::StreamKey,
@@ -410,7 +413,419 @@ pub fn run(seed: u64, thorough: bool) -> u64 {
             n += 1;
         }
         n += forward_cases(&mut seen).await;
+        // 4. the REAL init_market_stream on a scripted exchange
+        n += market_stream::cases(seed, thorough, &pols, &mut seen).await;
     });
     n += merge_cases(seed, thorough, &mut seen);
     n
+}
+
+// ------------------------------------------------------------------------------------------------- the REAL init_market_stream
+/// Drives `barter_data::streams::consumer::init_market_stream::<ScriptedExchange, Instr, Kind>` itself (not a re-composition
+/// of the utilities): a fake exchange whose `MarketStream::init` pops the next scripted attempt outcome, records the
+/// subscriptions it was handed and the virtual time of the call. The expected output is computed from the property
+/// statement: per successfully initialised connection its entries up to (excluding) the first terminal error
+/// (`DataError::InvalidSequence`), non-terminal errors passed through, then exactly one `Reconnecting(ScriptedExchange::ID)`;
+/// failed attempts deliver nothing and are followed by waits initial, initial*m, .. capped at max, reset after a success;
+/// a failing FIRST attempt / empty subscriptions make `init_market_stream` itself return the error.
+mod market_stream {
+    use super::{Conn, It, conn_of, id_of, pos_of};
+    use crate::{report, rng::Rng};
+    use barter_data::{
+        Identifier, MarketStream, NoInitialSnapshots, SnapshotFetcher,
+        error::DataError,
+        event::MarketEvent,
+        exchange::{Connector, StreamSelector, binance::subscription::BinanceSubResponse, subscription::ExchangeSub},
+        instrument::InstrumentData,
+        streams::{
+            consumer::init_market_stream,
+            reconnect::{Event, stream::ReconnectionBackoffPolicy},
+        },
+        subscriber::{WebSocketSubscriber, validator::WebSocketSubValidator},
+        subscription::{Subscription, SubscriptionKind},
+    };
+    use barter_instrument::{exchange::ExchangeId, instrument::market_data::kind::MarketDataInstrumentKind};
+    use barter_integration::{error::SocketError, protocol::websocket::WsMessage};
+    use futures::{Stream, StreamExt};
+    use std::{
+        collections::{HashSet, VecDeque},
+        pin::Pin,
+        sync::Mutex,
+        task::{Context, Poll},
+        time::Duration,
+    };
+    use tokio::time::{Instant, timeout};
+
+    const L_CUT: &str = "C12.bounded.market_stream.connection_cut_at_first_terminal_error";
+    const L_SOFT: &str = "C12.bounded.market_stream.nonterminal_error_passed_through";
+    const L_NOTICE: &str = "C12.bounded.market_stream.one_notice_per_connection";
+    const L_SUBS: &str = "C12.bounded.market_stream.every_attempt_uses_all_subscriptions";
+    const L_BACKOFF: &str = "C12.bounded.market_stream.backoff_waits";
+    const L_FIRST: &str = "C12.bounded.market_stream.first_attempt_failure_is_an_error";
+    const L_EMPTY: &str = "C12.bounded.market_stream.empty_subscriptions_is_an_error";
+    /// catch-all for an item lost / duplicated / reordered / foreign that none of the labels above describes
+    const L_ITEMS: &str = "C12.bounded.market_stream.items_exactly_once_in_order";
+
+    /// longest silence (virtual time) after which a run is considered over; above every backoff maximum used below
+    const IDLE: Duration = Duration::from_secs(600);
+
+    // ---- the fake exchange
+    #[derive(Clone, Copy, Default, Debug, PartialEq, Eq, serde::Deserialize, serde::Serialize)]
+    pub struct ScriptedExchange;
+    #[derive(Clone, Debug, PartialEq, Eq)]
+    pub struct ScChannel(&'static str);
+    impl AsRef<str> for ScChannel { fn as_ref(&self) -> &str { self.0 } }
+    #[derive(Clone, Debug, PartialEq, Eq)]
+    pub struct ScMarket(String);
+    impl AsRef<str> for ScMarket { fn as_ref(&self) -> &str { &self.0 } }
+
+    #[derive(Clone, Debug, PartialEq, Eq)]
+    pub struct Instr { key: u32, kind: MarketDataInstrumentKind }
+    impl InstrumentData for Instr {
+        type Key = u32;
+        fn key(&self) -> &u32 { &self.key }
+        fn kind(&self) -> &MarketDataInstrumentKind { &self.kind }
+    }
+    impl std::fmt::Display for Instr { fn fmt(&self, f: &mut std::fmt::Formatter<'_>) -> std::fmt::Result { write!(f, "instr{}", self.key) } }
+
+    #[derive(Clone, Copy, Debug, PartialEq, Eq)]
+    pub enum Kind { Ticks, Quotes }
+    impl SubscriptionKind for Kind {
+        type Event = u32;
+        fn as_str(&self) -> &'static str { match self { Kind::Ticks => "ticks", Kind::Quotes => "quotes" } }
+    }
+    impl std::fmt::Display for Kind { fn fmt(&self, f: &mut std::fmt::Formatter<'_>) -> std::fmt::Result { write!(f, "{}", self.as_str()) } }
+
+    type Sub = Subscription<ScriptedExchange, Instr, Kind>;
+    type Mev = MarketEvent<u32, u32>;
+    type Entry = Result<Mev, DataError>;
+    type Out = Event<ExchangeId, Entry>;
+
+    impl Connector for ScriptedExchange {
+        const ID: ExchangeId = ExchangeId::Simulated;
+        type Channel = ScChannel;
+        type Market = ScMarket;
+        type Subscriber = WebSocketSubscriber;
+        type SubValidator = WebSocketSubValidator;
+        type SubResponse = BinanceSubResponse;
+        fn url() -> Result<url::Url, SocketError> { unreachable!("the scripted exchange opens no socket") }
+        fn requests(_: Vec<ExchangeSub<ScChannel, ScMarket>>) -> Vec<WsMessage> { unreachable!("the scripted exchange opens no socket") }
+    }
+    impl Identifier<ScChannel> for Sub { fn id(&self) -> ScChannel { ScChannel(self.kind.as_str()) } }
+    impl Identifier<ScMarket> for Sub { fn id(&self) -> ScMarket { ScMarket(format!("market{}", self.instrument.key)) } }
+    impl StreamSelector<Instr, Kind> for ScriptedExchange {
+        type SnapFetcher = NoInitialSnapshots;
+        type Stream = ScriptedStream;
+    }
+
+    /// one call of `ScriptedStream::init`
+    #[derive(Clone, Debug)]
+    struct Call { at_ms: u64, subs: Vec<Sub> }
+    struct State { t0: Instant, attempts: VecDeque<Result<Vec<Entry>, DataError>>, calls: Vec<Call> }
+    /// script of the current case (the cases run one after the other)
+    static STATE: Mutex<Option<State>> = Mutex::new(None);
+
+    pub struct ScriptedStream { entries: VecDeque<Entry>, finite: bool }
+    impl Stream for ScriptedStream {
+        type Item = Entry;
+        fn poll_next(mut self: Pin<&mut Self>, _: &mut Context<'_>) -> Poll<Option<Entry>> {
+            match self.entries.pop_front() {
+                Some(entry) => Poll::Ready(Some(entry)),
+                None if self.finite => Poll::Ready(None),
+                None => Poll::Pending, // script exhausted: stays up, silent, for ever
+            }
+        }
+    }
+    #[async_trait::async_trait]
+    impl MarketStream<ScriptedExchange, Instr, Kind> for ScriptedStream {
+        async fn init<SnapFetcher>(subscriptions: &[Sub]) -> Result<Self, DataError>
+        where
+            SnapFetcher: SnapshotFetcher<ScriptedExchange, Kind>,
+        {
+            let mut guard = STATE.lock().unwrap();
+            let Some(state) = guard.as_mut() else { return Ok(ScriptedStream { entries: VecDeque::new(), finite: false }) };
+            state.calls.push(Call { at_ms: Instant::now().duration_since(state.t0).as_millis() as u64, subs: subscriptions.to_vec() });
+            match state.attempts.pop_front() {
+                Some(Ok(entries)) => Ok(ScriptedStream { entries: entries.into(), finite: true }),
+                Some(Err(error)) => Err(error),
+                None => Ok(ScriptedStream { entries: VecDeque::new(), finite: false }),
+            }
+        }
+    }
+
+    // ---- scripts -> what the fake exchange does
+    fn subs(n: usize) -> Vec<Sub> {
+        (0..n).map(|i| Subscription {
+            exchange: ScriptedExchange,
+            instrument: Instr { key: 70 + i as u32, kind: if i % 2 == 0 { MarketDataInstrumentKind::Spot } else { MarketDataInstrumentKind::Perpetual } },
+            kind: if i % 3 == 1 { Kind::Quotes } else { Kind::Ticks },
+        }).collect()
+    }
+    fn init_error(attempt: usize) -> DataError { DataError::Socket(format!("scripted init failure of attempt #{attempt}")) }
+    /// `flavour` picks which non-terminal DataError variant a `Soft` entry is
+    fn entry(conn: usize, pos: usize, it: It, flavour: usize, n_subs: usize) -> Entry {
+        let id = id_of(conn, pos);
+        match it {
+            It::Ok => Ok(MarketEvent {
+                time_exchange: chrono::DateTime::from_timestamp(1_700_000_000 + id as i64, 0).unwrap(),
+                time_received: chrono::DateTime::from_timestamp(1_700_000_001 + id as i64, 0).unwrap(),
+                exchange: ScriptedExchange::ID,
+                instrument: 70 + (id as usize % n_subs.max(1)) as u32,
+                kind: id,
+            }),
+            It::Soft if (pos + flavour) % 2 == 0 => Err(DataError::Socket(format!("soft#{id}"))),
+            It::Soft => Err(DataError::InitialSnapshotInvalid(format!("soft#{id}"))),
+            It::Hard => Err(DataError::InvalidSequence { prev_last_update_id: id as u64, first_update_id: id as u64 + 2 }),
+        }
+    }
+    fn id_in(entry: &Entry) -> Option<u32> {
+        match entry {
+            Ok(event) => Some(event.kind),
+            Err(DataError::Socket(s)) | Err(DataError::InitialSnapshotInvalid(s)) => s.rsplit('#').next().and_then(|d| d.parse().ok()),
+            Err(DataError::InvalidSequence { prev_last_update_id, .. }) => Some(*prev_last_update_id as u32),
+            Err(_) => None,
+        }
+    }
+    fn show_out(out: &Out) -> String {
+        match out {
+            Event::Reconnecting(origin) => format!("Reconnecting({origin})"),
+            Event::Item(Ok(event)) => format!("Item#{}", event.kind),
+            Event::Item(Err(error)) => {
+                let name = match error { DataError::Socket(_) => "Socket", DataError::InitialSnapshotInvalid(_) => "InitialSnapshotInvalid", DataError::InvalidSequence { .. } => "InvalidSequence", _ => "other" };
+                match id_in(&Err(error.clone())) { Some(id) => format!("Err({name})#{id}"), None => format!("Err({error:?})") }
+            }
+        }
+    }
+    fn show(events: &[(u64, Out)]) -> String { format!("{:?}", events.iter().map(|(t, e)| format!("{}@{t}ms", show_out(e))).collect::<Vec<_>>()) }
+
+    struct Case<'a> { policy: &'a ReconnectionBackoffPolicy, script: &'a [Conn], n_subs: usize, flavour: usize }
+    impl Case<'_> {
+        fn describe(&self) -> String {
+            let s: Vec<String> = self.script.iter().enumerate().map(|(c, conn)| match conn {
+                Conn::Fail => "init-fails".to_string(),
+                Conn::Up(items) => format!("up[{}]", items.iter().enumerate().map(|(p, it)| match entry(c, p, *it, self.flavour, self.n_subs) {
+                    Ok(_) => "item".to_string(),
+                    Err(DataError::Socket(_)) => "Err(Socket)".to_string(),
+                    Err(DataError::InitialSnapshotInvalid(_)) => "Err(InitialSnapshotInvalid)".to_string(),
+                    Err(_) => "Err(InvalidSequence)".to_string(),
+                }).collect::<Vec<_>>().join(", ")),
+            }).collect();
+            format!("init_market_stream::<ScriptedExchange, _, _>(policy(initial={}ms, x{}, max={}ms), {} subscriptions); outcomes of ScriptedStream::init in order=[{}], afterwards a silent connection (entries are numbered #<100*attempt+position>)",
+                self.policy.backoff_ms_initial, self.policy.backoff_multiplier, self.policy.backoff_ms_max, self.n_subs, s.join(", "))
+        }
+    }
+
+    // ---- expected, from the property statement
+    struct Want { refused: Option<DataError>, events: Vec<(u64, Out)>, call_times: Vec<u64> }
+    fn oracle(case: &Case<'_>) -> Want {
+        let mut want = Want { refused: None, events: vec![], call_times: vec![] };
+        if case.n_subs == 0 { want.refused = Some(DataError::SubscriptionsEmpty); return want; }
+        if case.script[0] == Conn::Fail { want.refused = Some(init_error(0)); want.call_times.push(0); return want; }
+        let policy = case.policy;
+        let (mut t, mut wait) = (0u64, policy.backoff_ms_initial);
+        for (c, conn) in case.script.iter().enumerate() {
+            want.call_times.push(t);
+            match conn {
+                Conn::Fail => {
+                    t += wait;
+                    wait = std::cmp::min(wait * policy.backoff_multiplier as u64, policy.backoff_ms_max);
+                }
+                Conn::Up(items) => {
+                    wait = policy.backoff_ms_initial;
+                    for (p, it) in items.iter().enumerate() {
+                        if *it == It::Hard { break; }
+                        want.events.push((t, Event::Item(entry(c, p, *it, case.flavour, case.n_subs))));
+                    }
+                    want.events.push((t, Event::Reconnecting(ScriptedExchange::ID)));
+                }
+            }
+        }
+        want.call_times.push(t); // the attempt after the script: succeeds, stays silent
+        want
+    }
+
+    // ---- observed, on the real function
+    enum Outcome { Streaming, Refused(DataError), Hung }
+    struct Seen { outcome: Outcome, events: Vec<(u64, Out)>, calls: Vec<Call>, ended: bool, cut_short: bool }
+    async fn observe(case: &Case<'_>, subscriptions: Vec<Sub>, cap: usize) -> Seen {
+        let t0 = Instant::now();
+        let attempts = case.script.iter().enumerate().map(|(c, conn)| match conn {
+            Conn::Fail => Err(init_error(c)),
+            Conn::Up(items) => Ok(items.iter().enumerate().map(|(p, it)| entry(c, p, *it, case.flavour, case.n_subs)).collect()),
+        }).collect();
+        *STATE.lock().unwrap() = Some(State { t0, attempts, calls: vec![] });
+        let mut seen = Seen { outcome: Outcome::Streaming, events: vec![], calls: vec![], ended: false, cut_short: false };
+        match timeout(IDLE, init_market_stream::<ScriptedExchange, Instr, Kind>(case.policy.clone(), subscriptions)).await {
+            Err(_) => seen.outcome = Outcome::Hung,
+            Ok(Err(error)) => seen.outcome = Outcome::Refused(error),
+            Ok(Ok(stream)) => {
+                let mut stream = Box::pin(stream);
+                loop {
+                    match timeout(IDLE, stream.next()).await {
+                        Ok(Some(out)) => {
+                            seen.events.push((Instant::now().duration_since(t0).as_millis() as u64, out));
+                            if seen.events.len() >= cap { seen.cut_short = true; break; }
+                        }
+                        Ok(None) => { seen.ended = true; break; }
+                        Err(_) => break,
+                    }
+                }
+            }
+        }
+        seen.calls = STATE.lock().unwrap().take().map(|s| s.calls).unwrap_or_default();
+        seen
+    }
+
+    fn check(case: &Case<'_>, subscriptions: &[Sub], got: &Seen, seen: &mut HashSet<&'static str>) {
+        let want = oracle(case);
+        let mut fail = |label: &'static str, observed: String, expected: String| {
+            if seen.insert(label) { report(label, case.describe(), observed, expected); }
+        };
+        // every attempt is made with all the subscriptions, in the original order
+        for (k, call) in got.calls.iter().enumerate() {
+            if call.subs != subscriptions {
+                let keys = |s: &[Sub]| s.iter().map(|s| format!("{}/{}", s.instrument, s.kind)).collect::<Vec<_>>();
+                fail(L_SUBS, format!("attempt #{k} (at {}ms) was initialised with {:?}", call.at_ms, keys(&call.subs)), format!("{:?}", keys(subscriptions)));
+                break;
+            }
+        }
+        let call_times: Vec<u64> = got.calls.iter().map(|c| c.at_ms).collect();
+        if let Some(error) = &want.refused {
+            let label = if case.n_subs == 0 { L_EMPTY } else { L_FIRST };
+            let observed = match &got.outcome {
+                Outcome::Refused(e) if e == error && call_times == want.call_times => return,
+                Outcome::Refused(e) => format!("Err({e:?}) after init attempts at {call_times:?}ms"),
+                Outcome::Streaming => format!("Ok(stream) which delivered {} after init attempts at {call_times:?}ms", show(&got.events)),
+                Outcome::Hung => format!("did not resolve within {}s; init attempts at {call_times:?}ms", IDLE.as_secs()),
+            };
+            fail(label, observed, format!("Err({error:?}) after init attempts at {:?}ms", want.call_times));
+            return;
+        }
+        match &got.outcome {
+            Outcome::Streaming => {}
+            Outcome::Refused(e) => { fail(L_ITEMS, format!("init_market_stream returned Err({e:?})"), format!("Ok(stream) delivering {}", show(&want.events))); return; }
+            Outcome::Hung => { fail(L_ITEMS, format!("init_market_stream did not resolve within {}s", IDLE.as_secs()), format!("Ok(stream) delivering {}", show(&want.events))); return; }
+        }
+        let o: Vec<&Out> = got.events.iter().map(|e| &e.1).collect();
+        let w: Vec<&Out> = want.events.iter().map(|e| &e.1).collect();
+        let expected = || format!("{}; init attempts at {:?}ms", show(&want.events), want.call_times);
+        let observed = || format!("{}{}; init attempts at {call_times:?}ms", show(&got.events), if got.ended { " then the stream ENDED" } else if got.cut_short { " .. (collection stopped)" } else { "" });
+        // nothing of a connection is delivered at / after its first terminal error
+        for out in &o {
+            let Event::Item(entry) = out else { continue };
+            let Some(id) = id_in(entry) else { continue };
+            if let Some(Conn::Up(items)) = case.script.get(conn_of(id)) {
+                if let Some(h) = items.iter().position(|i| *i == It::Hard) {
+                    if pos_of(id) >= h {
+                        fail(L_CUT, format!("delivered {} of connection #{} whose first terminal error is at position {h}; all: {}", show_out(out), conn_of(id), observed()), expected());
+                        return;
+                    }
+                }
+            }
+        }
+        if o != w {
+            let i = (0..o.len().max(w.len())).find(|i| o.get(*i) != w.get(*i)).unwrap();
+            let soft = |out: &Out| matches!(out, Event::Item(Err(_)));
+            let notice = |out: &Out| matches!(out, Event::Reconnecting(_));
+            let same_conn = |a: &Out, b: &Out| match (a, b) {
+                (Event::Item(a), Event::Item(b)) => id_in(a).zip(id_in(b)).is_some_and(|(a, b)| conn_of(a) == conn_of(b)),
+                _ => false,
+            };
+            let label = match (o.get(i), w.get(i)) {
+                // a non-terminal error was due here: dropped, altered, or it ended the connection
+                (_, Some(w_i)) if soft(w_i) => L_SOFT,
+                // the connection ended right after a non-terminal error had been passed through
+                (Some(o_i), Some(w_i)) if notice(o_i) && i > 0 && soft(w[i - 1]) && same_conn(w[i - 1], w_i) => L_SOFT,
+                (_, Some(w_i)) if notice(w_i) => L_NOTICE,
+                (Some(o_i), None) if notice(o_i) => L_NOTICE,
+                _ => L_ITEMS,
+            };
+            fail(label, format!("first difference at event {i}: {}", observed()), expected());
+            return;
+        }
+        // waits between attempts, and each connection's entries delivered when it came up
+        if got.events != want.events || call_times != want.call_times || got.ended {
+            fail(L_BACKOFF, observed(), expected());
+        }
+    }
+
+    /// every script of at most `max_attempts` attempts, connections of at most `max_conn` entries over {item, non-terminal
+    /// error, terminal error}, at most `budget` entries in total
+    fn scripts(max_attempts: usize, max_conn: usize, budget: usize) -> Vec<Vec<Conn>> {
+        fn conns(len: usize) -> Vec<Vec<It>> {
+            let alphabet = [It::Ok, It::Soft, It::Hard];
+            (0..alphabet.len().pow(len as u32)).map(|code| { let mut c = code; (0..len).map(|_| { let it = alphabet[c % 3]; c /= 3; it }).collect() }).collect()
+        }
+        fn grow(prefix: &mut Vec<Conn>, left: usize, max_conn: usize, budget: usize, out: &mut Vec<Vec<Conn>>) {
+            if !prefix.is_empty() { out.push(prefix.clone()); }
+            if left == 0 { return; }
+            // whatever follows a failed FIRST attempt is never reached: one follower is enough
+            if prefix.len() >= 2 && prefix[0] == Conn::Fail { return; }
+            prefix.push(Conn::Fail);
+            grow(prefix, left - 1, max_conn, budget, out);
+            prefix.pop();
+            for len in 0..=max_conn.min(budget) {
+                for items in conns(len) {
+                    prefix.push(Conn::Up(items));
+                    grow(prefix, left - 1, max_conn, budget - len, out);
+                    prefix.pop();
+                }
+            }
+        }
+        let mut out = vec![];
+        grow(&mut vec![], max_attempts, max_conn, budget, &mut out);
+        // smallest first, so that the first failing case reported under a label is a small one
+        out.sort_by_key(|script| (script.len(), script.iter().map(|c| match c { Conn::Up(items) => items.len(), Conn::Fail => 0 }).sum::<usize>()));
+        out
+    }
+
+    pub async fn cases(seed: u64, thorough: bool, pols: &[ReconnectionBackoffPolicy], seen: &mut HashSet<&'static str>) -> u64 {
+        let mut n = 0u64;
+        // 1. empty subscriptions: refused before any attempt is made
+        for policy in pols {
+            let script = [Conn::Up(vec![It::Ok])];
+            let case = Case { policy, script: &script, n_subs: 0, flavour: 0 };
+            let got = observe(&case, vec![], 8).await;
+            check(&case, &[], &got, seen);
+            n += 1;
+        }
+        // 2. exhaustive small scripts
+        let all = if thorough { scripts(5, 4, 6) } else { scripts(4, 4, 6) };
+        for (k, script) in all.iter().enumerate() {
+            let has_soft = script.iter().any(|c| matches!(c, Conn::Up(items) if items.contains(&It::Soft)));
+            let has_fail = script.iter().skip(1).any(|c| *c == Conn::Fail);
+            let n_pol = if thorough && has_fail { pols.len() } else if has_fail { 3 } else { 1 };
+            for j in 0..n_pol {
+                let policy = &pols[(k + j) % pols.len()];
+                for flavour in 0..if has_soft { 2 } else { 1 } {
+                    let case = Case { policy, script, n_subs: 1 + (k + j + flavour) % 4, flavour };
+                    let subscriptions = subs(case.n_subs);
+                    let cap = script.iter().map(|c| match c { Conn::Up(items) => items.len() + 1, Conn::Fail => 0 }).sum::<usize>() + 8;
+                    let got = observe(&case, subscriptions.clone(), cap).await;
+                    check(&case, &subscriptions, &got, seen);
+                    n += 1;
+                }
+            }
+        }
+        // 3. seeded random longer scripts (outage heavy)
+        let mut rng = Rng::seeded(seed, 1212);
+        for _ in 0..if thorough { 100_000 } else { 5_000 } {
+            let policy = if rng.chance(1, 3) {
+                let initial = 1 + rng.below(200);
+                ReconnectionBackoffPolicy::new(initial, 1 + rng.below(4) as u8, initial + rng.below(2_000))
+            } else { pols[rng.below(pols.len() as u64) as usize].clone() };
+            let len = 1 + rng.below(14) as usize;
+            let script: Vec<Conn> = (0..len).map(|c| if rng.chance(if c == 0 { 1 } else { 5 }, 10) { Conn::Fail } else {
+                let m = rng.below(9) as usize;
+                Conn::Up((0..m).map(|_| match rng.below(6) { 0 => It::Hard, 1 | 2 => It::Soft, _ => It::Ok }).collect())
+            }).collect();
+            let case = Case { policy: &policy, script: &script, n_subs: 1 + rng.below(5) as usize, flavour: rng.below(2) as usize };
+            let subscriptions = subs(case.n_subs);
+            let cap = script.iter().map(|c| match c { Conn::Up(items) => items.len() + 1, Conn::Fail => 0 }).sum::<usize>() + 8;
+            let got = observe(&case, subscriptions.clone(), cap).await;
+            check(&case, &subscriptions, &got, seen);
+            n += 1;
+        }
+        n
+    }
 }
